@@ -171,7 +171,11 @@ class Ctx:
                         shutil.copy(os.path.join(src, f), wd)
         if workers is None:
             workers = 1 if simulate else min(16, os.cpu_count() or 4)
-        cmd = ["java", "-XX:+UseParallelGC", "-Xss64m"]
+        # TLC and SANY leave tlc-<n> / SANY<n> directories in java.io.tmpdir and never remove them: keep them in the
+        # run's own working directory, which is removed at the end of the check
+        jtmp = os.path.join(wd, "jtmp")
+        os.makedirs(jtmp, exist_ok=True)
+        cmd = ["java", "-XX:+UseParallelGC", "-Xss64m", "-Djava.io.tmpdir=" + jtmp]
         if dfs:
             cmd.append("-Dtlc2.tool.queue.IStateQueue=StateDeque")
         cmd += (java_opts or [])
